@@ -575,7 +575,7 @@ func (r *BitmapReader) EOF() bool {
 
 // Read reads the next bit.
 func (r *BitmapReader) Read() bool {
-	if r.eof || uint32(len(r.buf)) <= (r.pos+1)/8 {
+	if r.eof || uint32(len(r.buf)) <= r.pos/8 {
 		r.eof = true
 		return false
 	}
